@@ -575,15 +575,21 @@ func genQ(r *rand.Rand, kind string, i int) (qCase, []string) {
 }
 
 type envCase struct {
-	Rate  int        `json:"rate"`
-	Rates []int      `json:"rates"`
-	N     int        `json:"n"`
-	R0    int64      `json:"r0"`
-	B0    int64      `json:"b0"`
-	T0    int64      `json:"t0"`
-	Evs   [][4]int64 `json:"-"`
-	Sizes []int64    `json:"-"`
-	NEvs  int        `json:"nevents"`
+	Rate  int   `json:"rate"`
+	Rates []int `json:"rates"`
+	N     int   `json:"n"`
+	// churn: after the writes, a goroutine calls InterceptorFactory.SetRate every ChurnUS microseconds for DrainMS
+	// milliseconds WHILE the backlog (far larger than the burst) drains; ChurnRates empty = re-announce Rate
+	ChurnUS    int        `json:"churn_us,omitempty"`
+	ChurnRates []int      `json:"churn_rates,omitempty"`
+	DrainMS    int        `json:"drain_ms,omitempty"`
+	NSets      int        `json:"nsets,omitempty"`
+	R0         int64      `json:"r0"`
+	B0         int64      `json:"b0"`
+	T0         int64      `json:"t0"`
+	Evs        [][4]int64 `json:"-"`
+	Sizes      []int64    `json:"-"`
+	NEvs       int        `json:"nevents"`
 }
 
 func runEnv(c envCase, r *rand.Rand) envCase {
@@ -631,15 +637,34 @@ func runEnv(c envCase, r *rand.Rand) envCase {
 			time.Sleep(time.Millisecond)
 		}
 	}
-	deadline := time.Now().Add(1500 * time.Millisecond)
-	for time.Now().Before(deadline) {
-		nmu.Lock()
-		d := n
-		nmu.Unlock()
-		if d >= c.N {
-			break
+	if c.ChurnUS > 0 {
+		// rate changes while the backlog drains: a limiter that is rebuilt (and so refilled) on SetRate shows here
+		stop := time.Now().Add(time.Duration(c.DrainMS) * time.Millisecond)
+		done := make(chan struct{})
+		go func() {
+			defer close(done)
+			for k := 0; time.Now().Before(stop); k++ {
+				rt := c.Rate
+				if len(c.ChurnRates) > 0 {
+					rt = c.ChurnRates[k%len(c.ChurnRates)]
+				}
+				f.SetRate("e", rt)
+				c.NSets++
+				time.Sleep(time.Duration(c.ChurnUS) * time.Microsecond)
+			}
+		}()
+		<-done
+	} else {
+		deadline := time.Now().Add(1500 * time.Millisecond)
+		for time.Now().Before(deadline) {
+			nmu.Lock()
+			d := n
+			nmu.Unlock()
+			if d >= c.N {
+				break
+			}
+			time.Sleep(5 * time.Millisecond)
 		}
-		time.Sleep(5 * time.Millisecond)
 	}
 	_ = ic.Close()
 	mu.Lock()
@@ -654,12 +679,23 @@ func (c envCase) toCase() cq.Case {
 	for i, e := range c.Evs {
 		ev[i] = cq.T(cq.Z(e[0]), cq.Z(e[1]), cq.Z(e[2]), cq.Z(e[3]))
 	}
-	b := "constant-rate"
+	b := []string{"constant-rate"}
 	if len(c.Rates) > 0 {
-		b = "rate-changes"
+		b = []string{"rate-changes"}
+	}
+	if c.ChurnUS > 0 {
+		b = []string{"setrate-while-backlog-drains"}
+		if len(c.ChurnRates) > 0 {
+			b = append(b, "churn-different-rates")
+		} else {
+			b = append(b, "churn-same-rate")
+		}
+		if len(c.Sizes) < c.N {
+			b = append(b, "backlog-sustained")
+		}
 	}
 
-	return cq.Case{Coq: cq.T(cq.Z(c.R0), cq.Z(c.B0), cq.Z(c.T0), cq.L(ev), cq.LZ(c.Sizes)), JSON: c, Buckets: []string{b}, Trivial: len(c.Evs) < 2}
+	return cq.Case{Coq: cq.T(cq.Z(c.R0), cq.Z(c.B0), cq.Z(c.T0), cq.L(ev), cq.LZ(c.Sizes)), JSON: c, Buckets: b, Trivial: len(c.Evs) < 2}
 }
 
 func main() {
@@ -787,6 +823,19 @@ func main() {
 		}
 		env.Cases = append(env.Cases, ec.toCase())
 	}
+	nch := o.Scale(10, 120)
+	for i := 0; i < nch; i++ {
+		// low rates: a backlog of 300..500 packets (>= 0.5 Mbit) against a burst of 12 kbit and 30..600 kbit of rate
+		// allowance; SetRate every 2..10 ms for 300..500 ms
+		c := envCase{Rate: 100_000 + r.Intn(1_100_000), N: 300 + r.Intn(200), ChurnUS: 2000 + r.Intn(8000), DrainMS: 300 + r.Intn(200)}
+		switch i % 3 {
+		case 1:
+			c.ChurnRates = []int{c.Rate, 100_000 + r.Intn(1_100_000)}
+		case 2:
+			c.ChurnRates = []int{100_000 + r.Intn(500_000), 200_000 + r.Intn(1_000_000), 100_000}
+		}
+		env.Cases = append(env.Cases, runEnv(c, r).toCase())
+	}
 	extra := map[string]interface{}{
 		"env_allow_events":                   nAllow,
 		"env_max_stamp_staleness_ns":         maxStale,
@@ -832,6 +881,7 @@ func main() {
 		"per writer with the accepted one; non-trivial = at least 2 accepted packets; env: real rate.Limiter calls recorded through the pacerFactory hook, "+
 		"cumulative granted bits checked against burst_max + sum(rate*dt) with 2 ms clock slack per call (env_spec_failures) and against the tight bound that bills only "+
 		"the actual backward steps of the time stamps plus 5 ms per SetRate (env_tight_failures); "+
+		"env churn cases: backlog of 300..500 packets at 0.1..1.2 Mbit/s, a goroutine calls SetRate (same rate / different rates) every 2..10 ms for 300..500 ms while the backlog drains; "+
 		"close sets: Close called 0..60 ms into the traffic of 1..4 writers (sequential or concurrent), 1..3 writes per writer after Close returned, second Close; "+
 		"per call phase (before/racing/after Close) and result, delivered sequence, count delivered when Close returned vs 8 ms later, compared with the LTS with Close",
 		sets, extra, fails)
